@@ -324,6 +324,27 @@ func (f *frame) obligeClause(kind, label, cond string, cl *Clause) {
 // throwObligations: "nothrow" – no explicit throw and no call that may throw is reachable.
 func (f *frame) throwObligations() {
 	fc := f.contract
+	// throws clauses: a throw (explicit or from a callee) is permitted only under the
+	// stated condition, evaluated over the entry state
+	for k, th := range fc.Throws {
+		for _, t := range f.throws {
+			if t.kind == "foreign" {
+				continue
+			}
+			save := f.curPC
+			f.curPC = t.pc
+			if t.cond != "" {
+				f.curPC = and(t.pc, t.cond)
+			}
+			label := t.text
+			if t.kind == "call" {
+				label = "call " + t.callee
+			}
+			c := f.evalContractBool(th, f.entryHeap, nil, nil)
+			f.obligeClause(fmt.Sprintf("throw.%d", k+1), label, c, th)
+			f.curPC = save
+		}
+	}
 	if !fc.NoThrow {
 		return
 	}
